@@ -52,6 +52,177 @@ def run(F, chk):
                 chk.instance(R1, ok=True, nontrivial=False)  # unreachable under folded constants
     chk.floor(R1, 2)
 
+    # ------------------------------------------------------------------ R16.2 resize before index (shared with C01 R1.4)
+    R2 = chk.rule("R16.2", "in every Sync body and hand-written reader, every subscript of a member container by a counted loop and "
+                           "every raw transfer into a container is dominated by a resize to the same count (a truncated count "
+                           "cannot make the reader index past the array)")
+    import arrays, versions
+    import c08 as _c08
+    import schema as _schema
+    VE = versions.VersionEval(F)
+    regs = sorted(set(VE.named_versions().values())) if chk.tier == "quick" else sorted(set(VE.regions()))
+    # one representative region per distinct truth assignment of the version predicates used in the readers
+    keyset = {}
+    for r in regs:
+        sig = tuple(VE.ev(b, r) for b in VE.pred_bodies.values()) + (r[0], min(r[2], 200))
+        keyset.setdefault(sig, r)
+    reps = sorted(keyset.values())
+    for fn in sorted(F.fns.values(), key=lambda f: f["id"]):
+        if fn.get("tmpl") == "pattern":
+            continue
+        is_sync = fn["short"] in ("Sync", "SyncData", "SyncByteArray") and any("NiStreamReversible" in (p.get("ct") or p.get("t") or "") for p in fn.get("params", []))
+        is_reader = (fn["short"] == "Get" and fn.get("cls") == "nifly::NiHeader") or \
+                    (fn["short"] == "Read" and any("NiIStream" in (p.get("ct") or p.get("t") or "") for p in fn.get("params", [])))
+        if not (is_sync or is_reader):
+            continue
+        uses_version = any(VE.is_version_expr(n) for n in walk(fn.get("body") or {}) if n["k"] == "Call")
+        checked, found = 0, {}
+        for rep in (reps if uses_version else reps[:1]):
+            a = arrays.ArrayCoherence(F, fn, flow.MODE_READ, VE, rep)
+            a.run()
+            checked = max(checked, a.checked)
+            for n, msg in a.findings:
+                found.setdefault(id(n), (n, msg, rep))
+        for n, msg, rep in found.values():
+            chk.instance(R2, ok=False, sample={"fn": fn["name"], "finding": msg})
+            chk.violation("R16.2", "C16/R16.2:%s:%s" % (fn["name"], show(n.get("base") or n)[:60] if n["k"] == "Subscript" else show(n["args"][0])[:60]),
+                          where(fn, n), "%s (version %08x/%d/%d): %s — a file cut after the count leaves the array shorter than the loop bound" % (
+                              fn["name"], rep[0], rep[1], rep[2], msg))
+        for _ in range(max(0, checked - len(found))):
+            chk.instance(R2, ok=True)
+    chk.floor(R2, 90)
+
+    # ------------------------------------------------------------------ R16.5 arrays the library indexes by a count are sized with it
+    R5 = chk.rule("R16.5", "for every (array, count) pair that a function on the load / query / save paths indexes by a loop bounded "
+                           "by the count (without sizing the array itself), the reader sizes the array to that count under no data "
+                           "condition that the indexing site does not test as well")
+    import re
+    import paths as _paths
+    import c02 as _c02
+    import c15 as _c15
+    from paths import render as _render
+    roots_q, Q = _c15.scope_Q(F)
+    scope = Q | F.reachable([f["id"] for f in F.fns.values() if f.get("cls") == "nifly::NifFile" and f["short"] in ("Load", "Save", "CopyFrom")])
+    getters = {}
+    for g in F.fns.values():
+        if g.get("cls") and not g.get("params") and g.get("tmpl") != "pattern":
+            b = g.get("body")
+            if is_node(b) and b["k"] == "Compound" and len(b["body"]) == 1 and b["body"][0]["k"] == "Return":
+                r = b["body"][0].get("e")
+                while is_node(r) and r["k"] == "Cast":
+                    r = r["e"]
+                if is_node(r) and r["k"] == "Member" and (r.get("base") is None or r["base"]["k"] == "This"):
+                    getters[(g["cls"], g["short"])] = r["name"]
+
+    def peel(e):
+        while is_node(e) and e["k"] == "Cast":
+            e = e["e"]
+        return e
+
+    beliefs = {}  # (array owner, array, count owner, count) -> [(fn, node, guard member names)]
+    for fid in sorted(scope):
+        fn = F.fns.get(fid)
+        if not fn or fn.get("tmpl") == "pattern" or fn["short"] in ("Sync", "Get", "Put", "Read", "Write") or fn.get("ctor"):
+            continue
+        cands = []
+        for loop in walk(fn.get("body") or {}):
+            if loop["k"] != "For" or not is_node(loop.get("cond")) or loop["cond"]["k"] != "Binary" or loop["cond"]["op"] != "<":
+                continue
+            lv, bound = peel(loop["cond"]["l"]), peel(loop["cond"]["r"])
+            if not (is_node(lv) and lv["k"] == "Ref"):
+                continue
+            N, O = None, None
+            if is_node(bound) and bound["k"] == "Member" and bound.get("mk") == "field":
+                N, O = (bound.get("owner"), bound["name"]), show(bound.get("base")) if bound.get("base") is not None else "this"
+            elif is_node(bound) and bound["k"] == "Call" and bound.get("cls") and not bound.get("args"):
+                for c in [bound["cls"]] + F.ancestors(bound["cls"]):
+                    if (c, bound.get("short")) in getters:
+                        N = (c, getters[(c, bound["short"])])
+                        break
+                O = show(bound.get("recv")) if bound.get("recv") is not None else "this"
+            if not N:
+                continue
+            for sub in walk(loop["body"]):
+                if sub["k"] == "Subscript" and is_node(peel(sub["idx"])) and peel(sub["idx"])["k"] == "Ref" and peel(sub["idx"])["id"] == lv["id"]:
+                    base = peel(sub["base"])
+                    if is_node(base) and base["k"] == "Member" and base.get("mk") == "field" and \
+                            arrays._is_dyn_container(base.get("ct") or base.get("t")):
+                        Ob = show(base.get("base")) if base.get("base") is not None else "this"
+                        if Ob == O:
+                            cands.append((sub, base, N))
+        if not cands:
+            continue
+        ids = {id(n) for n, _, _ in cands}
+
+        class Z(arrays.ArrayCoherence):
+            def on_node(self, n, st):
+                st2 = arrays.ArrayCoherence.on_node(self, n, st)
+                if st2 is not None and not self.muted and id(n) in ids:
+                    sites[id(n)] = st2
+                return st2
+
+            def _check_subscript(self, n, st):
+                return
+
+            def _check_raw(self, n, st):
+                return
+
+        sites = {}
+        Z(F, fn).run()
+        for n, base, N in cands:
+            st = sites.get(id(n))
+            if st is None:
+                continue
+            c = show(base)
+            if any(f[0] == "Z" and f[1] == c for f in st):
+                continue  # the function sized the array itself
+            names = set()
+            for f in st:
+                if f[0] == "G":
+                    names |= set(re.findall(r"[A-Za-z_]\w*", f[1]))
+            beliefs.setdefault((base.get("owner"), base["name"], N[0], N[1]), []).append((fn, n, names))
+    chk.extra["array_count_beliefs_on_load_query_save_paths"] = sorted("%s::%s[i < %s]" % (k[0], k[1], k[3]) for k in beliefs)
+    S5 = _paths.Summarizer(F, _c02.make_primitive(F), mode=flow.MODE_READ, value_proxies=True,
+                           node_kinds=("Call", "OpCall", "Construct", "Assign", "Unary"))
+    for (aown, arr, nown, nname), sites in sorted(beliefs.items()):
+        readers = [f for f in F.fns.values() if f.get("cls") == aown and f["short"] in ("Sync", "Get") and f.get("tmpl") != "pattern"]
+        if not readers:
+            continue
+        sized = []
+        for rd in readers:
+            for ev in S5.events(rd["id"]):
+                if ev.kind == "mut" and ev.info["op"] == "resize" and ev.path and ev.path[0][0] == "this" and len(ev.path) == 2 and \
+                        ev.path[1] == arr and ev.info.get("size_path") and _render(ev.info["size_path"]).split(".")[-1] == nname:
+                    gnames = set()
+                    for g in ev.guards:
+                        node = flow.KEYNODE.get(g[0])
+                        expr = node[1] if isinstance(node, tuple) else node
+                        if is_node(expr) and VE.is_version_expr(expr):
+                            continue
+                        if len(g) > 2 and g[2]:
+                            continue
+                        gnames |= set(re.findall(r"[A-Za-z_]\w*", g[0]))
+                    sized.append((rd, ev, gnames - {nname, "stream", "GetVersion", "File", "Stream", "User", "nifly"}))
+        if not sized:
+            chk.instance(R5, ok=False, sample={"array": "%s::%s" % (aown, arr), "count": nname, "sized": False})
+            fn0, n0, _ = sites[0]
+            chk.violation("R16.5", "C16/R16.5:%s::%s:%s" % (aown, arr, nname), where(fn0, n0),
+                          "%s indexes %s::%s by a loop bounded by %s, but the reader of %s never sizes the array to that count: a file "
+                          "that only carries the count makes this loop read past the array" % (fn0["name"], aown, arr, nname, aown))
+            continue
+        for fn0, n0, cnames in sites:
+            best = min((g - cnames for _, _, g in sized), key=len)
+            ok = not best
+            chk.instance(R5, ok=ok, sample={"array": "%s::%s" % (aown, arr), "count": nname, "consumer": fn0["name"],
+                                            "reader_conditions_not_tested_by_consumer": sorted(best)})
+            if not ok:
+                chk.violation("R16.5", "C16/R16.5:%s::%s:%s" % (aown, arr, nname), where(sized[0][0], None),
+                              "%s::%s is sized to %s only under the condition(s) on %s, but %s indexes it by a loop bounded by %s "
+                              "without testing them: a truncated or crafted file with the count set and the condition false makes "
+                              "that loop read past the array" % (aown, arr, nname, sorted(best), fn0["name"], nname))
+                break
+    chk.floor(R5, 10)
+
     # ------------------------------------------------------------------ R16.3 loader validity checks
     R3 = chk.rule("R16.3", "Load tests the header's validity and the version predicate (clearing and returning non-zero) before any "
                            "block is read; `valid = true` is the last statement of NiHeader::Get; on the load path every subscript "
